@@ -71,3 +71,18 @@ package headsync
 //@     invariant forall i int :: 0 <= i && i < len(resp.Results) ==> rootof(elements) > rootof(resp.Results[i])
 //@     invariant forall i int :: 0 <= i && i < len(resp.Results) ==> resp.Results[i] != nil && resp.Results[i].Count == wrap32(res[i].Count)
 //@     invariant forall i int :: 0 <= i && i < len(resp.Results) ==> len(resp.Results[i].Elements) == len(res[i].Elements)
+
+// ---------------------------------------------------------------------------------------------
+// C11: the client side of the head-sync adapter handles any decoded response without indexing out of
+// range or dereferencing nil (the generated decoder allocates every repeated element it appends, and
+// the drpc client returns a response object whenever it returns no error - both assumed).
+//@ func iface headsync.Client.HeadSync
+//@   modifies nothing
+//@   ensures result1 == nil ==> result0 != nil
+//@   ensures result1 == nil ==> (forall k int :: 0 <= k && k < len(result0.Results) ==> result0.Results[k] != nil && (forall j int :: 0 <= j && j < len(result0.Results[k].Elements) ==> result0.Results[k].Elements[j] != nil))
+//@ package encoding/hex
+//@ func DecodeString
+//@   modifies nothing
+//@ package github.com/anyproto/any-sync/commonspace/headsync
+//@ func (*remote).DiffTypeCheck
+//@   requires r != nil && r.client != nil && diff != nil
